@@ -259,7 +259,7 @@ def twin(stage, xs):
         return xs[d:], (lambda j, d=d: 0 if j == 0 else d + j), 1
     if k == "enumerate":
         s0 = 0 if stage[1] is None else stage[1]
-        return [[s0 + i, x] for i, x in enumerate(xs)], (lambda j: j), 0     # Python lists: never equal to a tuple
+        return [(s0 + i, x) for i, x in enumerate(xs)], (lambda j: j), 0
     if k in ("memorize", "attr"):
         return list(xs), (lambda j: j), 0
     if k in ("append", "concat", "plus"):
